@@ -167,6 +167,10 @@ DEFAULTS = [
     ("DC5(p=(Is(0), 0), n=1)", "DC5(p=(0, 0), n=1)"),
     ("DC5(p=(0, Is(0)), q=[Is(1)], n=1)", "DC5(p=(0, 0), q=[1], n=3)"),
     ("DC5(q=Is(None), n=1)", "DC5(n=2)"),
+    ("DC5(p=(Is(0), 0), n=1)", "DC5(p=(0, 5), n=1)"),
+    ("DC5(p=(Is(0), 0))", "DC5(p=(1, 0))"),
+    ("DC5(p=(0, Is(0)), n=2)", "DC5(p=(7, 0), n=2)"),
+    ("DC5(q=[Is(1)], p=(Is(0), 0))", "DC5(q=[1, 2], p=(0, 1))"),
     ("DC5(p=(snapshot(0), 0), n=1)", "DC5(p=(0, 0), n=2)"),
     ("[DC5(p=(Is(0), 0), n=1), 1]", "[DC5(n=2), 1]"),
     ("DC5(p=(f\"{0}\", 0), n=1)", "DC5(p=('0', 0), n=2)"),
